@@ -162,43 +162,54 @@ Proof. intros H. apply (forward_after [32] s t); [repeat constructor; apply spac
 Lemma col_after_space s : s_col (after s [32]) = s_col s + 1.
 Proof. cbn [after fold_left]. apply col_step. apply space_colc. Qed.
 
-(* auto-detection: the spaces of the first non-empty line *)
-Lemma block_indentation_spaces : forall j fuel s chunks x t,
-  mem_N x in_scan_block_scalar_indentation_0 = false ->
-  s_rest s = sp j ++ x :: t -> (j < fuel)%nat ->
-  block_indentation_f fuel s chunks (s_col s) =
-  Ok (after s (sp j), chunks, s_col s + N.of_nat j).
+(* auto-detection: blank lines (with at most as many spaces) and the spaces of the first
+   non-empty line *)
+Lemma block_indentation_peel : forall n f s chunks m X, s_rest s = sp n ++ X ->
+  block_indentation_f (n + f) s chunks m =
+  block_indentation_f f (after s (sp n)) chunks
+    (match n with O => m | _ => N.max m (s_col s + N.of_nat n) end).
 Proof.
-  induction j as [|j IH]; intros fuel s chunks x t Hx Hr Hf; (destruct fuel as [|f]; [lia|]);
-    cbn [block_indentation_f sp repeat app] in *.
-  - rewrite (peek0 _ _ _ Hr). cbn [bind]. rewrite Hx. f_equal. f_equal. lia.
-  - rewrite (peek0 _ _ _ Hr). cbn [bind].
-    replace (mem_N 32 in_scan_block_scalar_indentation_0) with true by reflexivity.
-    replace (32 =? c_space) with true by reflexivity. cbn [negb].
-    rewrite (forward_space _ _ Hr). cbn [bind]. rewrite col_after_space.
-    replace (s_col s <? s_col s + 1) with true by lia.
-    pose proof (IH f (after s [32]) chunks x t Hx) as H. rewrite col_after_space in H.
-    rewrite H; [| apply (rest_after [32]); exact Hr | lia].
-    rewrite after_cons. cbn [after fold_left]. f_equal. f_equal. lia.
+  induction n as [|n IH]; intros f s chunks m X Hr; [reflexivity|].
+  cbn [plus block_indentation_f]. rewrite sp_S in *. cbn [app] in Hr.
+  rewrite (peek0 _ _ _ Hr). cbn [bind].
+  replace (mem_N 32 in_scan_block_scalar_indentation_0) with true by reflexivity.
+  replace (32 =? c_space) with true by reflexivity. cbn [negb].
+  rewrite (forward_space _ _ Hr). cbn [bind]. rewrite col_after_space.
+  rewrite (IH f (after s [32]) chunks _ X); [| apply (rest_after [32]); exact Hr].
+  change (after s (32 :: sp n)) with (after (after s [32]) (sp n)). f_equal.
+  pose proof (col_after_space s) as Hcs.
+  destruct n; [|rewrite Hcs]; destruct (m <? s_col s + 1) eqn:E; lia.
 Qed.
 
-Lemma block_indentation_spec : forall lead fuel s chunks j x t,
+Lemma block_indentation_spec : forall lead fuel s chunks m j x t,
   mem_N x in_scan_block_scalar_indentation_0 = false -> s_col s = 0 ->
-  s_rest s = nls lead ++ sp j ++ x :: t -> (lead + j < fuel)%nat ->
-  block_indentation_f fuel s chunks 0 =
-  Ok (after s (nls lead ++ sp j), chunks ++ repeat [10] lead, N.of_nat j).
+  m <= N.of_nat j -> Forall (fun n => (n <= j)%nat) lead ->
+  s_rest s = bl lead ++ sp j ++ x :: t -> (length (bl lead) + j < fuel)%nat ->
+  block_indentation_f fuel s chunks m =
+  Ok (after s (bl lead ++ sp j), chunks ++ repeat [10] (length lead), N.of_nat j).
 Proof.
-  induction lead as [|lead IH]; intros fuel s chunks j x t Hx Hcol Hr Hf.
-  - cbn [nls repeat app] in *. pose proof (block_indentation_spaces j fuel s chunks x t Hx Hr) as H.
-    rewrite Hcol in H. rewrite H by lia. rewrite app_nil_r. reflexivity.
-  - destruct fuel as [|f]; [lia|]. cbn [block_indentation_f]. rewrite nls_S in *. cbn [app] in Hr.
-    rewrite (peek0 _ _ _ Hr). cbn [bind].
+  induction lead as [|n lead IH]; intros fuel s chunks m j x t Hx Hcol Hm Hle Hr Hf.
+  - cbn [bl map concat app length repeat] in *. rewrite app_nil_r.
+    replace fuel with (j + (fuel - j))%nat by lia.
+    rewrite (block_indentation_peel j _ s chunks m _ Hr).
+    destruct (fuel - j)%nat as [|f] eqn:E; [lia|]. cbn [block_indentation_f].
+    rewrite (peek_after _ _ _ _ Hr). cbn [bind]. rewrite Hx. f_equal. f_equal.
+    rewrite Hcol. destruct j; lia.
+  - rewrite bl_cons in *. rewrite !app_length, sp_length in Hf. cbn [length] in Hf.
+    inversion Hle as [|? ? Hn Hle']; subst.
+    assert (Hr0 : s_rest s = sp n ++ 10 :: (bl lead ++ sp j ++ x :: t)) by (rewrite Hr, <- !app_assoc; reflexivity).
+    replace fuel with (n + (fuel - n))%nat by lia.
+    rewrite (block_indentation_peel n _ s chunks m _ Hr0).
+    destruct (fuel - n)%nat as [|f] eqn:E; [lia|]. cbn [block_indentation_f].
+    pose proof (rest_after _ _ _ Hr0) as Hr1.
+    rewrite (peek0 _ _ _ Hr1). cbn [bind].
     replace (mem_N 10 in_scan_block_scalar_indentation_0) with true by reflexivity.
     replace (10 =? c_space) with false by reflexivity. cbn [negb].
-    rewrite (scan_line_break_lf _ _ Hr). cbn [bind].
-    rewrite (IH f _ (chunks ++ [[10]]) j x t Hx); [| | apply (rest_after [10]); exact Hr | lia].
-    + cbn [app]. rewrite after_cons. cbn [after fold_left repeat]. rewrite <- app_assoc. reflexivity.
-    + pose proof (col_after_lf s []) as H. cbn [app] in H. exact H.
+    rewrite (scan_line_break_lf _ _ Hr1). cbn [bind].
+    rewrite (IH f _ (chunks ++ [[10]]) _ j x t Hx); [| | | exact Hle' | apply (rest_after [10]); exact Hr1 | lia].
+    + cbn [length repeat]. rewrite <- !after_app, <- !app_assoc. reflexivity.
+    + pose proof (col_after_lf (after s (sp n)) []) as H. cbn [app] in H. exact H.
+    + rewrite Hcol. destruct n; lia.
 Qed.
 
 (* `while stream.column < indent and stream.peek() == " "` *)
@@ -233,49 +244,54 @@ Qed.
 Definition indent_ok (indent : N) (j : nat) (x : N) : Prop :=
   N.of_nat j = indent \/ (N.of_nat j < indent /\ x <> 32).
 
-(* one or more blank lines, then the indentation of the next line *)
-Lemma block_breaks_lines indent : forall k fuel s chunks j x t,
-  mem_N x in_scan_block_scalar_breaks_0 = false -> 0 < indent -> indent_ok indent j x ->
-  s_rest s = nls (S k) ++ sp j ++ x :: t -> (S k < fuel)%nat ->
+Definition ble (indent : N) (ns : list nat) : Prop := Forall (fun n => N.of_nat n <= indent) ns.
+
+(* a line feed, more blank lines (with at most [indent] spaces), then the indentation of the next line *)
+Lemma block_breaks_lines indent : forall ns fuel s chunks j x t,
+  mem_N x in_scan_block_scalar_breaks_0 = false -> 0 < indent -> indent_ok indent j x -> ble indent ns ->
+  s_rest s = 10 :: bl ns ++ sp j ++ x :: t -> (S (length ns) < fuel)%nat ->
   block_breaks_f fuel indent s chunks =
-  Ok (after s (nls (S k) ++ sp j), chunks ++ repeat [10] (S k)).
+  Ok (after s ([10] ++ bl ns ++ sp j), chunks ++ repeat [10] (S (length ns))).
 Proof.
-  induction k as [|k IH]; intros fuel s chunks j x t Hx Hi Hj Hr Hf;
-    (destruct fuel as [|f]; [lia|]); cbn [block_breaks_f]; rewrite nls_S in Hr; cbn [app] in Hr;
+  induction ns as [|n ns IH]; intros fuel s chunks j x t Hx Hi Hj Hle Hr Hf;
+    (destruct fuel as [|f]; [lia|]); cbn [block_breaks_f];
     rewrite (peek0 _ _ _ Hr); cbn [bind];
     replace (mem_N 10 in_scan_block_scalar_breaks_0) with true by reflexivity;
     rewrite (scan_line_break_lf _ _ Hr); cbn [bind];
     pose proof (col_after_lf s []) as Hc0; cbn [app] in Hc0;
     pose proof (rest_after [10] s _ Hr) as Hr1.
-  - cbn [nls repeat app] in Hr1.
+  - cbn [bl map concat app] in Hr1.
     rewrite (skip_indent_spec indent j _ x t Hr1); [| rewrite Hc0; destruct Hj as [Hj|Hj]; [left|right]; lia].
-    cbn [bind]. destruct f as [|f]; [lia|]. cbn [block_breaks_f].
+    cbn [bind]. destruct f as [|f]; [cbn [length] in Hf; lia|]. cbn [block_breaks_f].
     rewrite (peek_after _ _ _ _ Hr1). cbn [bind]. rewrite Hx.
-    rewrite nls_S. cbn [nls repeat app]. rewrite after_cons. cbn [after fold_left]. reflexivity.
-  - rewrite nls_S in Hr1. cbn [app] in Hr1.
-    rewrite (skip_indent_spec indent 0 _ 10 _ Hr1); [| rewrite Hc0; right; split; [lia | discriminate]].
-    cbn [bind sp repeat after fold_left].
-    rewrite (IH f _ (chunks ++ [[10]]) j x t Hx Hi Hj); [| rewrite nls_S; exact Hr1 | lia].
-    rewrite (nls_S (S k)). cbn [app]. rewrite after_cons. cbn [after fold_left].
-    f_equal. f_equal. rewrite <- app_assoc. reflexivity.
+    cbn [bl map concat app length repeat]. rewrite <- after_app. reflexivity.
+  - rewrite bl_cons in Hr1. inversion Hle as [|? ? Hn Hle']; subst.
+    assert (Hr1' : s_rest (after s [10]) = sp n ++ 10 :: (bl ns ++ sp j ++ x :: t)) by (rewrite Hr1, <- !app_assoc; reflexivity).
+    rewrite (skip_indent_spec indent n _ 10 _ Hr1'); [| rewrite Hc0; destruct (N.eq_dec (N.of_nat n) indent); [left | right; split; [|discriminate]]; lia].
+    cbn [bind].
+    rewrite (IH f _ (chunks ++ [[10]]) j x t Hx Hi Hj Hle'); [| apply rest_after; exact Hr1' | cbn [length] in Hf; lia].
+    rewrite bl_cons. cbn [length repeat]. rewrite <- !after_app, <- !app_assoc. reflexivity.
 Qed.
 
-Lemma scan_block_scalar_breaks_spec indent k s j x t :
-  mem_N x in_scan_block_scalar_breaks_0 = false -> 0 < indent -> indent_ok indent j x ->
+Lemma scan_block_scalar_breaks_spec indent ns s j x t :
+  mem_N x in_scan_block_scalar_breaks_0 = false -> 0 < indent -> indent_ok indent j x -> ble indent ns ->
   s_col s = 0 ->
-  s_rest s = nls k ++ sp j ++ x :: t ->
-  scan_block_scalar_breaks s indent = Ok (after s (nls k ++ sp j), repeat [10] k).
+  s_rest s = bl ns ++ sp j ++ x :: t ->
+  scan_block_scalar_breaks s indent = Ok (after s (bl ns ++ sp j), repeat [10] (length ns)).
 Proof.
-  intros Hx Hi Hj Hcol Hr. unfold scan_block_scalar_breaks. destruct k as [|k].
-  - cbn [nls repeat app] in *.
+  intros Hx Hi Hj Hle Hcol Hr. unfold scan_block_scalar_breaks. destruct ns as [|n ns].
+  - cbn [bl map concat app] in *.
     rewrite (skip_indent_spec indent j s x t Hr); [| rewrite Hcol; destruct Hj as [Hj|Hj]; [left|right]; lia].
     cbn [bind]. unfold fuel_of. cbn [block_breaks_f].
     rewrite (peek_after _ _ _ _ Hr). cbn [bind]. rewrite Hx. reflexivity.
-  - assert (Hr0 : s_rest s = sp 0 ++ 10 :: (nls k ++ sp j ++ x :: t)) by (rewrite Hr, nls_S; reflexivity).
-    rewrite (skip_indent_spec indent 0 s 10 _ Hr0); [| rewrite Hcol; right; split; [lia | discriminate]].
-    cbn [bind sp repeat after fold_left].
-    rewrite (block_breaks_lines indent k _ s [] j x t Hx Hi Hj Hr); [reflexivity|].
-    unfold fuel_of. rewrite Hr, !app_length, nls_length. cbn [length]. lia.
+  - rewrite bl_cons in *. inversion Hle as [|? ? Hn Hle']; subst.
+    assert (Hr0 : s_rest s = sp n ++ 10 :: (bl ns ++ sp j ++ x :: t)) by (rewrite Hr, <- !app_assoc; reflexivity).
+    rewrite (skip_indent_spec indent n s 10 _ Hr0); [| rewrite Hcol; destruct (N.eq_dec (N.of_nat n) indent); [left | right; split; [|discriminate]]; lia].
+    cbn [bind].
+    pose proof (rest_after _ _ _ Hr0) as Hr1.
+    rewrite (block_breaks_lines indent ns _ _ [] j x t Hx Hi Hj Hle' Hr1).
+    + cbn [app length]. rewrite <- !after_app, <- !app_assoc. reflexivity.
+    + unfold fuel_of. rewrite Hr1. cbn [length]. rewrite app_length. pose proof (bl_length ns). lia.
 Qed.
 
 (* ------------------------------------------------------------------ the content lines *)
